@@ -1,12 +1,48 @@
 /- Drv.Reader — model side of streams `frame` and `udpbuf`. -/
 import Reader.Frame
+import Reader.Bufio
 import Drv.Codec
 open GoStd Sip
 
 namespace Driver
 
+/-- the connection double of the harness: one Read per scripted cut, then the rest in one piece -/
+def segments : Bytes → List Nat → List Bytes
+  | [], _ => []
+  | d, [] => [d]
+  | d, c :: cs => d.take c :: segments (d.drop c) cs
+
+def parseCuts (f : String) : List Nat :=
+  if f == "-" then [] else ((f.splitOn ",").map parseNat).filter (· > 0)
+
+/-- readLine after readLine on the operational reader until it fails -/
+def linesLoop (N : Nat) : Nat → Reader.Bufio.BR → List Bytes
+  | 0, _ => []
+  | fuel + 1, b =>
+    match Reader.Bufio.readLine N b with
+    | none => []
+    | some (l, b') => l :: linesLoop N fuel b'
+
+/-- ParseMessage after ParseMessage on the operational reader until it fails -/
+def parseLoop (N : Nat) : Nat → Reader.Bufio.BR → List Message
+  | 0, _ => []
+  | fuel + 1, b =>
+    match Reader.Bufio.parseMessage N cmap b with
+    | none => []
+    | some (m, b') => m :: parseLoop N fuel b'
+
 def execReader (stream op : String) (a : List String) : String :=
   match stream, op, a with
+  | "frame", "blines", [n, s, cuts] =>
+    let d := unhex s
+    let N := max (parseNat n) 16      -- bufio.NewReaderSize raises the size to its minimum of 16
+    let ls := linesLoop N (d.length + 2) ⟨[], segments d (parseCuts cuts)⟩
+    (String.intercalate " " (s!"n={ls.length}" :: ls.map toHexField)).trimAscii.toString
+  | "frame", "bparse", [n, s, cuts] =>
+    let d := unhex s
+    let N := max (parseNat n) 16
+    let ms := parseLoop N (d.length + 2) ⟨[], segments d (parseCuts cuts)⟩
+    (String.intercalate " " (s!"n={ms.length}" :: ms.map fun m => toHexField (m.bytes cmap))).trimAscii.toString
   | "frame", "run", [s, _] =>
     let ms := Reader.connLoop cmap (unhex s)
     (String.intercalate " " (s!"n={ms.length}" :: ms.map fun m => toHexField (m.bytes cmap))).trimAscii.toString ++ " closed=1"
